@@ -93,7 +93,7 @@ theorem counter_migrated :
 theorem counter_nothing_default :
     (match parseE cx0 (.mk { hasAnyOf := true, default := some (.num (.int 1)) } [] none none [] [] none none []
         [.bool false] [] [] none) with
-     | e => e.cls == .nothing && e.kw.default.isSome && (match serElem [] e with | .bool false => true | _ => false)) = true := by
+     | e => e.cls == .nothing && e.kw.default.isSome && (match serElem none [] e with | .bool false => true | _ => false)) = true := by
   decide +kernel
 
 /-- non-vacuity: falsy defaults on a composition survive (the repaired defect F04) -/
